@@ -45,7 +45,8 @@ def run(ctx):
     quick = ctx.tier == "quick"
     ctx.assumptions += ["TLC 1.8.0 + CommunityModules", "content tokens (identifiers, literals, operators, range bounds) are extracted by the harness's own small lexer; "
                         "keyword case, quote style, redundant parentheses, '*..' = '*' and '.5' = '0.5' are spelling freedom",
-                        "inputs: the repository's corpora, one statement per top-level grammar form and unsupported construct, the rendered clause skeletons of C09; "
+                        "inputs: the repository's corpora, one statement per top-level grammar form and unsupported construct, the rendered clause skeletons of C09, the grammar corpus "
+                        "of spec/Frontend/ExprGen.tla (68 expression productions and 14 leaves, each alone and directly inside every hole of every other, bare and parenthesised) in 12 expression positions; "
                         "'every string of the grammar' is explored, not enumerated"]
     # the boolean fragment: Parse(Emit(t)) = t is part of CypherExprCheck (shared with C10)
     r = ctx.tlc(AREA, "CypherExprCheck", "CypherExprCheck.cfg", workers=4, timeout=900)
@@ -58,6 +59,9 @@ def run(ctx):
     sk = ctx.printed_json(g.out)
     skp = os.path.join(ctx.work, "sk.ndjson")
     write_ndjson(skp, sk)
+    # the grammar corpus: every expression production, and every production directly inside every other, in every (thorough) or
+    # three rotating (quick) expression positions
+    ctx.grammar_corpus(per=3 if quick else 12, maxlen=2 if quick else 3)
     trace = os.path.join(ctx.work, "c07.ndjson")
     ctx.vh(["front", "faithful", "--out", trace, "--skeletons", skp], timeout=2400)
     n_ok, rejected = validate_histories(ctx, AREA, "CypherExprTrace", trace, chunk_events=100000, max_cand=40, parallel=8)
